@@ -33,6 +33,10 @@ func (fio *FileIO) Sync() error {
 }
 
 func (fio *FileIO) Close() error {
+	// 关闭之前进行持久化, 与接口约定及 mmap 实现保持一致
+	if err := fio.fd.Sync(); err != nil {
+		return err
+	}
 	return fio.fd.Close()
 }
 
